@@ -32,6 +32,7 @@ structure St where
   lastEv : List String := []
   lastOk : Bool := true
   snap : Snap := ⟨[], [], [], true, true, [], []⟩
+  prevSnap : Snap := ⟨[], [], [], true, true, [], []⟩   -- the snapshot before the current request
   initPools : List PoolSnap := []
   haveInit : Bool := false
   cacheView : List (String × String × Res × Bool) := []   -- id, state, res, pending
@@ -87,6 +88,11 @@ def report (st : St) (issues : List String) : St × List Issue :=
     let cls := (e.splitOn " ").headD e
     if acc.1.reported.contains cls then acc else
     ({ acc.1 with reported := cls :: acc.1.reported }, acc.2 ++ [⟨.property, s!"{e.replace " " "_"} hist={acc.1.hist}"⟩])) (st, [])
+
+/-- some pool's promised capacity already exceeded its shared CPUs earlier in this history (known
+finding C03:descendant-starved…): the grants can then not be re-instated verbatim and
+re-configuration falls back to re-placing the containers -/
+def starvedBefore (st : St) : Bool := st.reported.any (·.startsWith "C03:descendant-starved-by-ancestor-slicing")
 
 def getCtr (st : St) (id : String) : Option CtrInfo := st.ctrs.find? (·.id == id)
 def setCtr (st : St) (c : CtrInfo) : St := { st with ctrs := c :: st.ctrs.filter (·.id != c.id) }
@@ -297,7 +303,7 @@ def step (st : St) (toks : List String) : St × List Issue :=
     if st.lastEv == ["reconfig", "same"] then
       -- re-applying the unchanged configuration was refused: verbatim re-instatement of the grants fails only
       -- when some pool's promised capacity already exceeds its shared CPUs (known finding C03:descendant-starved…)
-      let starved := st.reported.any (·.startsWith "C03:descendant-starved-by-ancestor-slicing")
+      let starved := starvedBefore st
       let (st, is) := report st [if starved then "C13:unchanged-config-rejected-in-starved-state" else "C13:unchanged-config-rejected"]
       ({ st with tainted := true }, is)
     else (st, [])
@@ -350,7 +356,8 @@ def step (st : St) (toks : List String) : St × List Issue :=
         let errs := if !acc.1.snap.pinMem && r.getD 1 "-" != "-" then errs ++ [s!"C12:mems-told-with-pinning-disabled {id}"] else errs
         let rt' := overlay c.rt r
         -- (changes left pending by an earlier error reply and merely delivered now are not caused by the re-application)
-        let errs := if isReconfig && rt' != c.rt && !acc.1.errPending.contains id then errs ++ [s!"C13:unchanged-config-changed-resources {id}"] else errs
+        let errs := if isReconfig && rt' != c.rt && !acc.1.errPending.contains id then
+            errs ++ [if starvedBefore acc.1 then s!"C13:unchanged-config-replaced-in-starved-state {id}" else s!"C13:unchanged-config-changed-resources {id}"] else errs
         (setCtr acc.1 { c with rt := rt', told := overlay c.told r }, errs)
       | none => acc) (st, errs)
     report st errs
@@ -365,7 +372,7 @@ def step (st : St) (toks : List String) : St × List Issue :=
     ({ st with cacheView := cv, errPending := ep }, [])
   | ["PS", a, r, i, pc, pm] =>
     match (kv a "allowed").bind pset, (kv r "reserved").bind pset, (kv i "isolated").bind pset with
-    | some a, some r, some i => ({ st with snap := ⟨a, r, i, pc == "pincpu=true", pm == "pinmem=true", [], []⟩ }, [])
+    | some a, some r, some i => ({ st with prevSnap := st.snap, snap := ⟨a, r, i, pc == "pincpu=true", pm == "pinmem=true", [], []⟩ }, [])
     | _, _, _ => (st, [⟨.parse, "PS"⟩])
   | ["PN", name, parent, iso, res, sh, fi, fs, gs, gr, ss, sr] =>
     match pset iso, pset res, pset sh, pset fi, pset fs, gs.toInt?, gr.toInt?, ss.toInt?, sr.toInt? with
@@ -384,6 +391,13 @@ def step (st : St) (toks : List String) : St × List Issue :=
     let st := { st with nodesWithMem := ((kv nm "nodesWithMem").bind String.toNat?).getD 0 }
     let st := if !st.haveInit then { st with initPools := st.snap.pools, haveInit := true } else st
     let (st, is) := report st (checkState st)
+    -- C13: a successfully re-applied unchanged configuration leaves the policy state as it was
+    let (st, is) := if st.lastEv == ["reconfig", "same"] && st.lastOk && !st.tainted then
+        let errs := unchangedInv st.prevSnap st.snap
+        let errs := if starvedBefore st then errs.map (fun e => "C13:unchanged-config-replaced-in-starved-state " ++ e) else errs
+        let (st, is2) := report st errs
+        (st, is ++ is2)
+      else (st, is)
     -- accounting model: replay and compare
     let (st, mis) : St × List Issue :=
       if st.modelDesync then (st, []) else
